@@ -1,12 +1,14 @@
 #!/bin/sh
-# dev tool: ./tools_mutant.sh <seeded-dir> <Cxx> [tier]  — apply a seeded change to /repo, run the check, undo.
+# dev tool: ./tools_mutant.sh <seeded-dir> <Cxx> [tier] — run a check against a seeded change WITHOUT touching /repo:
+# the patch is applied to a scratch worktree that is put in front of the import path; evidence is restored afterwards.
 d=$1; p=$2; t=${3:-quick}
-cd /repo || exit 2
-if [ -n "$(git status --porcelain -- tf_pwa)" ]; then echo "repo not clean"; exit 2; fi
-git apply /verif/$d/patch.diff || exit 2
-cd /verif
-./check $p --tier $t > /tmp/mutant_$(basename $d)_$p.log 2>&1
+cd /verif || exit 2
+wt=/tmp/tm_$(basename $d)_$$
+git -C /repo worktree add --detach $wt HEAD >/dev/null 2>&1 || exit 2
+( cd $wt && git apply /verif/$d/patch.diff ) || { git -C /repo worktree remove --force $wt; echo "patch does not apply"; exit 2; }
+cp evidence/$p.json /tmp/ev_$p_$$.json 2>/dev/null
+VERIF_REPO_OVERRIDE=$wt ./check $p --tier $t > /tmp/mutant_$(basename $d)_$p.log 2>&1
 rc=$?
-cd /repo && git checkout -- . 
-echo "mutant $d check $p rc=$rc"; grep -E "VIOLATION|KNOWN-FINDING|HARNESS|violation oracle" /tmp/mutant_$(basename $d)_$p.log | head -8
-# restore evidence from the unchanged tree later
+cp /tmp/ev_$p_$$.json evidence/$p.json 2>/dev/null; rm -f /tmp/ev_$p_$$.json
+git -C /repo worktree remove --force $wt
+echo "mutant $d check $p rc=$rc"; grep -E "VIOLATION|HARNESS|violation oracle" /tmp/mutant_$(basename $d)_$p.log | head -8
